@@ -1303,6 +1303,10 @@ pub fn gen_c02(tier: &str, seed: u64) -> Vec<Vec<String>> {
 pub fn gen_c05(tier: &str, seed: u64) -> Vec<Vec<String>> {
     let mut root = Rng::new(seed ^ 0xC05);
     let mut cases = Vec::new();
+    // the reconfiguration methods take effect as a whole also when two handle clones call them at
+    // the same time (schedules of C12: calls parked inside the critical section, push/pop on clones)
+    let (races, parked): (Vec<_>, Vec<_>) = gen_c12(tier, seed ^ 0xC05C).into_iter().partition(|c| c[0].contains("C12 f"));
+    cases.extend(races.into_iter().chain(parked.into_iter().take(if tier == "thorough" { 300 } else { 30 })).map(|mut c| { c[0] = c[0].replacen("C12 ", "C05 c", 1); c }));
     for k in 0..n_cases(tier, 300, 5000) {
         let mut r = root.fork();
         let mut c = vec![format!("CASE spec C05 {k}")];
@@ -1556,7 +1560,7 @@ pub fn gen_c12(tier: &str, seed: u64) -> Vec<Vec<String>> {
         cases.push(c);
     }
     // free-running races: specifications that differ in module filters, maximum level AND text filter
-    for _ in 0..(if tier == "thorough" { 40 } else { 6 }) {
+    for _ in 0..(if tier == "thorough" { 40 } else { 10 }) {
         let mut r = root.fork();
         let mut c = vec![format!("CASE spec C12 f{k}")];
         k += 1;
@@ -1569,7 +1573,7 @@ pub fn gen_c12(tier: &str, seed: u64) -> Vec<Vec<String>> {
             c.push(format!("BUILD s{i} {fs} {rx}"));
         }
         c.push(format!("INIT s{n}"));
-        c.push(format!("CRACE {} s{n} {}", if tier == "thorough" { 600 } else { 250 }, (0..n).map(|i| format!("s{i}")).collect::<Vec<_>>().join(" ")));
+        c.push(format!("CRACE {} s{n} {}", if tier == "thorough" { 4000 } else { 2000 }, (0..n).map(|i| format!("s{i}")).collect::<Vec<_>>().join(" ")));
         c.push("END".into());
         cases.push(c);
     }
